@@ -9,5 +9,6 @@ CONSTANTS
   Ops <- MC_OpsLazy
   ReqVers <- MC_V12
   Lazies <- MC_Both
+  Dev = {}
   Known <- MC_KnownDesign
 CHECK_DEADLOCK FALSE
